@@ -212,4 +212,4 @@ def seg(n): return n if IDENT.match(n) and n not in KEYWORDS else '"' + n.replac
 def pstr(p): return '.'.join(seg(x) for x in p)
 VALUES = ['7', '"new"', './n.nix', 'true', '[ 1 2 ]', '{ k = 1; }', '{ }', '"a b"', 'null', '12']
 BADVALUES = ['1 +', '', '{ a = ; }', '# c', '"x', ')', 'a = 1;', '1; 2', '1 /* c']
-BADPATHS = ['', 'a..b', '"x', 'a."b', '.', '@', '@@', 'a.', '1a', '@x@', '@@v@', '@a.b@@', 'x@', 'a@b', '@ x', '@x ', '@.x', '@x.']
+BADPATHS = ['', 'a..b', '"x', 'a."b', '.', '@', '@@', 'a.', '1a', '@x@', '@@v@', '@a.b@@', 'x@', 'a@b', '@ x', '@x ', '@.x', '@x.', 'a\n', 'x.y\n', '@v\n', 'a\n.b', 'a\t', ' a']
